@@ -55,6 +55,7 @@ type aconn struct {
 	s               *asession
 	id              int
 	wantRemote      string // the peer's own local address
+	wantLocal       string // several listeners: the address this peer dialled
 	remote0, local0 string
 	fails           *[]string
 	mu              *sync.Mutex
@@ -85,8 +86,14 @@ func (a *aconn) check(c gnet.Conn, where string) {
 		if want != "" && r != want {
 			a.failf("addr-remote", "%s: RemoteAddr() = %q, the peer connected from %q", where, r, want)
 		}
-		if l != a.s.listen {
-			a.failf("addr-local", "%s: LocalAddr() = %q, the listener is bound to %q", where, l, a.s.listen)
+		wantL := a.s.listen
+		a.mu.Lock()
+		if a.wantLocal != "" {
+			wantL = a.wantLocal
+		}
+		a.mu.Unlock()
+		if l != wantL {
+			a.failf("addr-local", "%s: LocalAddr() = %q, the listener this peer connected to is bound to %q", where, l, wantL)
 		}
 		return
 	}
@@ -172,6 +179,9 @@ func runAddr(ac addrCase) (fails []string, infra string, observedAcross int) {
 		}
 		a.mu.Lock()
 		a.wantRemote = want
+		if cfg.Listeners > 1 {
+			a.wantLocal = p.RemoteAddr().String()
+		}
 		a.mu.Unlock()
 		return p, nil
 	}
@@ -321,6 +331,9 @@ func TestC17Sessions(t *testing.T) {
 			ac.Cfg.Net = "tcp4"
 		default:
 			ac.Cfg.Net = "tcp6"
+		}
+		if (ac.Kind == "tcp4" || ac.Kind == "tcp6" || ac.Kind == "unix") && rapid.IntRange(0, 2).Draw(t, "severalListeners") == 0 {
+			ac.Cfg.Listeners = rapid.IntRange(2, 3).Draw(t, "listeners") // Rotate: every connection reports the listener it came through
 		}
 		ac.Long = rapid.IntRange(1, 3).Draw(t, "long")
 		ac.Churn = rapid.SampledFrom([]int{5, 20, 60, 120}).Draw(t, "churn")
